@@ -54,8 +54,8 @@ class NodeInfo:
         if self.role == "deref-prop":
             return "prop"
         for fam in ("&genreg", "&indreg", "&stackreg", "&basereg"):
-            if t.startswith(fam):
-                return "regcap"
+            if t.startswith(fam) and self.role != "instr":
+                return "regcap"      # (an item of the instruction list with such a name is an ordinary instruction capture)
         if t.startswith("&"):
             return "cap"
         return "plain"
